@@ -121,7 +121,20 @@ for _n, _c in [('time_ts_plus_dur', 't + d is the chrono result or an error when
     KANI[_n] = dict(inject=CV, module='cel_value.rs', fq=f'types::cel_value::verif_kani_time::{_n}', exhaustive=True, functions=['impl Add for CelValue', 'impl Sub for CelValue', 'CelValue::ord'],
                     claim=_c, vars=None)
 
+ALL_UNITS = ['value_arith', 'value_cmp', 'value_coll', 'macros', 'preresolved', 'interp', 'interp_vm_g0', 'interp_vm_g1', 'interp_vm_g2', 'interp_vm_g3',
+             'interp_vm_g4', 'interp_vm_g5', 'interp_vm_g6', 'interp_vm_g7', 'builtins', 'wiring']
+
 PROPS = {
+    'C01': dict(
+        units=ALL_UNITS, safety_only=True,
+        kani_quick=[],
+        kani_thorough=ARITH_TWINS + CONV + MATH,
+        level_text='Totality is the conjunction of the safety obligations of every function under contract: for each of them Verus proves, for all inputs satisfying its precondition, no arithmetic overflow, no division by zero, every index in bounds, every unwrap/expect on Some/Ok, every panic!/unreachable! unreachable, and that each call site establishes its callee\'s precondition. The claim covers exactly the functions listed in the evidence (value operators, comparisons, indexing, macros, the VM loop and stack, label resolution, numeric built-ins through Kani); it is not a whole-program claim.',
+        not_covered=['functions not under contract: the recursive-descent parser and tokenizer, JSON / protobuf conversions, Display, regex / uom / chrono-tz internals, string built-ins beyond their wiring, python / wasm bindings',
+                     'stack exhaustion by deep syntactic nesting in the parser (no depth guard to put a contract on)', 'termination (never fails to return) is not proved',
+                     'protobuf-gated arms (verified configuration: type_prop + neg_index)'],
+        assumptions=['Debug / Display formatting of values inside error messages does not panic'],
+    ),
     'C16': dict(
         units=['wiring', 'value_arith', 'value_cmp'],
         kani_quick=[],
